@@ -39,6 +39,7 @@ func runCLI(bin string, args []string, stdin []byte) cliRun {
 			code = -1
 		}
 	}
+	tick()
 	return cliRun{so.String(), se.String(), code}
 }
 
@@ -364,6 +365,49 @@ func init() {
 							out.Violate("C15|config-with-selection", fmt.Sprintf("CLI with -config and %v on %s (exit %d) differs from the library under the same configuration and selection: %s", sel.flags, o.file, r.code, why),
 								map[string]interface{}{"file": o.file, "flags": sel.flags, "config": cfgText}, nil, nil)
 						}
+					}
+				}
+			}
+		}
+		// -pretty: the indented document holds the same results as the library computes, also when details contain
+		// characters that mean something to a formatter (per cent signs, braces, back-slashes, quotes)
+		{
+			var objs []CorpusCert
+			for _, cc := range corpus.Certs {
+				if cc.File == "c1r0e1a0s1m1b0.pem" {
+					objs = append(objs, cc)
+				}
+			}
+			for _, cn := range []string{"caf%C3%A9.example.com", "100%.example.com", "%s%d%v.example.com", "a\\b\"c{}.example.com", "%!s(MISSING).example.com"} {
+				t := leafTemplate()
+				t.Subject.CommonName = cn
+				t.DNSNames = []string{"example.com"}
+				if der, c, err := issue(t, nil); err == nil {
+					objs = append(objs, CorpusCert{"generated CN " + cn, der, c})
+				}
+			}
+			if len(certs) > 0 {
+				objs = append(objs, certs[0])
+			}
+			for _, o := range objs {
+				for _, viaStdin := range []bool{false, true} {
+					pemBytes := pem.EncodeToMemory(&pem.Block{Type: "CERTIFICATE", Bytes: o.DER})
+					var r cliRun
+					if viaStdin {
+						r = runCLI(bin, []string{"-pretty"}, pemBytes)
+					} else {
+						pth := filepath.Join(tmp, "pretty.pem")
+						os.WriteFile(pth, pemBytes, 0o600)
+						r = runCLI(bin, []string{"-pretty", pth}, nil)
+					}
+					invocations++
+					want := libJSON(zlint.LintCertificate(o.Cert))
+					ok, why := r.code == 0, fmt.Sprintf("exit %d", r.code)
+					if ok {
+						ok, why = equalResults(strings.TrimSpace(r.stdout), want, map[string]bool{})
+					}
+					if !ok {
+						out.Violate("C15|pretty-output-differs", fmt.Sprintf("the -pretty output for %s differs from the library's results: %s", o.File, why), map[string]interface{}{"file": o.File, "der": hexs(o.DER), "stdin": viaStdin}, nil, nil)
 					}
 				}
 			}
